@@ -147,6 +147,7 @@ func (h *NtfnsHandler) Start() error {
 		}
 	}
 
+	h.initTaskChan()
 	h.quitWg.Add(2)
 	go handle(h)
 	go worker(h)
@@ -755,10 +756,10 @@ func (h *NtfnsHandler) reorg(dbtx mwdb.DBTransaction, currentBest txmgr.BlockMet
 	return nil
 }
 
-func worker(h *NtfnsHandler) {
-	defer Recover()
-	defer h.quitWg.Done()
-
+// initTaskChan creates the task queue and re-queues the unfinished imports and removals
+// recorded in the wallet status. It runs before the worker goroutine starts, because API
+// calls use the queue as soon as Start has returned.
+func (h *NtfnsHandler) initTaskChan() {
 	mwdb.View(h.walletMgr.db, func(tx mwdb.ReadTransaction) error {
 		wss, err := h.walletMgr.syncStore.GetAllWalletStatus(tx)
 		if err != nil {
@@ -789,6 +790,11 @@ func worker(h *NtfnsHandler) {
 		}
 		return nil
 	})
+}
+
+func worker(h *NtfnsHandler) {
+	defer Recover()
+	defer h.quitWg.Done()
 
 	for {
 		select {
